@@ -165,7 +165,8 @@ void FileHeader::getFileHeader(u8_t *iv)
     WV_LOOP(__CPROVER_assigns(i, WV_FILE_WSTATE(this->out))
             __CPROVER_loop_invariant(0 <= i && i <= this->num && this->out->open && this->out->pos == __CPROVER_loop_entry(this->out->pos) + 20ull * i)
             __CPROVER_loop_invariant(this->out->nwrites == __CPROVER_loop_entry(this->out->nwrites) + i && this->out->nbytes == __CPROVER_loop_entry(this->out->nbytes) + 20ull * i)
-            __CPROVER_loop_invariant(this->out->len < (1ull << 51) && this->out->pos < (1ull << 51))
+            __CPROVER_loop_invariant(this->out->len < (1ull << 51) && this->out->pos < (1ull << 51) &&
+                                     this->out->len == (this->out->pos > __CPROVER_loop_entry(this->out->len) ? this->out->pos : __CPROVER_loop_entry(this->out->len)))
             __CPROVER_loop_invariant((wv_wP >= __CPROVER_loop_entry(this->out->pos) && wv_wP < __CPROVER_loop_entry(this->out->pos) + 20ull * i) ?
                                      (wv_wcount == __CPROVER_loop_entry(wv_wcount) + 1 && wv_wbyte == iv[wv_wP - __CPROVER_loop_entry(this->out->pos)]) :
                                      (wv_wcount == __CPROVER_loop_entry(wv_wcount) && wv_wbyte == __CPROVER_loop_entry(wv_wbyte)))
